@@ -17,6 +17,12 @@ RULE = (
     "together with a remove of a present key AND some cycle wrote a key that was removed in the same cycle AND push "
     "was refused at least once because the memory was full"
 )
+RULE += (
+    "  In one case of three a SECOND, independent caller (its own transaction) of one exclusive method (push / write / read / remove) requests "
+    "in some of the cycles in which the first caller does, with the same arguments: at most one of the two may be served "
+    "and the outcome must be that of a single request."
+)
+
 ASSUMPTIONS = [
     "amaranth.sim.Simulator is the trusted execution model",
     "readiness is judged behaviourally: a requested call that is not accepted counts as 'not ready'",
